@@ -454,3 +454,4 @@ MANIFEST = {
     "ref": "DESIGN.md §4 C12",
 }
 MANIFEST["text"] += ' Registry options (on_redefinition, autoconvert modes) are among the probes that must be restored.'
+MANIFEST["text"] += ' Two nameless Context objects that differ only in their redefinitions, and activations failing on an unhashable keyword value, are among the events.'
